@@ -84,9 +84,8 @@ theorem umember_enc (hr : RecOk S g r) {dn : String} {w : Nat} {m : Field} (hu :
       have he' : r.enc t v = .ok bf := by
         cases v <;> first | exact he | cases he
       have h1 := (hr.law.apply hgv he').1
-      have h2 := (hr.scalar t v bf he').size t w hw v
-      rw [h1] at h2
-      exact ⟨t, v, hk, rfl, he', hgv, by simpa using h2⟩
+      have h2 := (hr.scalar t v bf he').size_eq t w hw v _ h1
+      exact ⟨t, v, hk, rfl, he', hgv, h2⟩
 
 /-- the union occupies `w` bytes per present member -/
 theorem group_len (hr : RecOk S g r) {dn : String} {w : Nat} (G : List Field) :
@@ -238,14 +237,17 @@ theorem decFrom_group (hr : RecOk S g r) {dn : String} {w : Nat} {f : Field} {ms
     simp only [hk] at hhead
     unfold decPayload
     simp only [hk]
-    have hsize := hsc.size t w hw
     cases hf : S.find t with
     | none => simp [hf] at hhead
     | some td =>
       cases td with
       | int w' s =>
+        have hn : w' = w := by
+          unfold scalarWidth at hw
+          simpa [hf] using hw
+        subst hn
         refine ⟨.int (decInt w' s st.buf), ?_⟩
-        simp [hsc.decInt t w' s hf, hsize, bind, Except.bind, pure, Except.pure]
+        simp [hsc.decInt t w' s hf, hsc.sizeInt t w' s hf, bind, Except.bind, pure, Except.pure]
       | bytes n =>
         have hn : n = w := by
           unfold scalarWidth at hw
@@ -253,7 +255,8 @@ theorem decFrom_group (hr : RecOk S g r) {dn : String} {w : Nat} {f : Field} {ms
         subst hn
         refine ⟨.bytes (st.buf.take n), ?_⟩
         have hle : n ≤ st.buf.length := by rw [hbuf, ← hlen]; simp
-        simp [hsc.decBytes t n hf st.buf hle, hsize, bind, Except.bind, pure, Except.pure]
+        have hlt : (st.buf.take n).length = n := by rw [List.length_take]; omega
+        simp [hsc.decBytes t n hf st.buf hle, hsc.sizeBytes t n hf _ hlt, bind, Except.bind, pure, Except.pure]
       | _ => simp [hf] at hhead
   obtain ⟨v, hpay⟩ := hpay
   unfold decFrom
